@@ -337,6 +337,78 @@ def equation (lhsBilinear rhsLinear : Bool) (lhs rhs : String) (trials tests : F
             | .error e => .error e
             | .ok cs => .ok { lhs, rhs, trials, tests, bc := some cs }
 
+/-! ### Operation sequences: condition objects are mutable cells
+
+  An `EssentialBC` has `set_position`, so it matters WHICH objects an equation stores.  The heap
+  holds every condition object by address; the caller creates conditions, builds equations from
+  the objects it holds, and may go on repositioning its own objects.  `Equation.__new__`
+  (equation.py:303-325) builds NEW conditions for every face — also for a condition on a single
+  face — and never writes into the objects it was given. -/
+
+structure World where
+  heap : List Cond                        -- every EssentialBC object alive, by address
+  eqs : List (List Fn × List Nat)         -- the equations built so far: trial functions, addresses of the bc entries
+  deriving Repr
+
+inductive Op where
+  | new (c : Cond)                                    -- the caller creates a condition
+  | build (trials : List Fn) (addrs : List Nat)       -- Equation(a, l, trials, tests, bc=[objects at addrs])
+  | reposition (a : Nat) (p : Nat)                    -- the caller: obj.set_position(p) on one of ITS objects
+
+/-- the objects at the given addresses -/
+def getAll (h : List Cond) : List Nat → Option (List Cond)
+  | [] => some []
+  | a :: as =>
+      match h[a]?, getAll h as with
+      | some c, some cs => some (c :: cs)
+      | _, _ => none
+
+/-- `heap[a].set_position(p)` -/
+def setPos : List Cond → Nat → Nat → List Cond
+  | [], _, _ => []
+  | c :: cs, 0, p => { c with position := some p } :: cs
+  | c :: cs, a + 1, p => c :: setPos cs a p
+
+/-- the address belongs to an equation (is one of its bc entries) -/
+def World.owned (w : World) (a : Nat) : Bool := w.eqs.any (fun e => e.2.contains a)
+
+/-- fresh addresses `n, n+1, …` -/
+def freshAddrs (n : Nat) : Nat → List Nat
+  | 0 => []
+  | k + 1 => n :: freshAddrs (n + 1) k
+
+def step (w : World) : Op → World
+  | .new c => { w with heap := w.heap ++ [c] }
+  | .build trials addrs =>
+      match getAll w.heap addrs with
+      | none => w
+      | some cs =>
+          match expandBC trials (cs.map .essential) with
+          | .error _ => w                             -- the constructor raises: nothing is built
+          | .ok out => { heap := w.heap ++ out, eqs := w.eqs ++ [(trials, freshAddrs w.heap.length out.length)] }
+  | .reposition a p => if w.owned a then w else { w with heap := setPos w.heap a p }
+
+def run (w : World) (ops : List Op) : World := ops.foldl step w
+
+/-- `equation.bc` of equation number `k`, read now -/
+def readEq (w : World) (k : Nat) : Option (List Cond) :=
+  match w.eqs[k]? with
+  | some e => getAll w.heap e.2
+  | none => none
+
+/-- the rejected variant (a "fast path" for a condition on a single face: the equation stores the
+    caller's object and writes the position into it); kept to state that it is NOT history
+    independent (`aliased_breaks_history`) -/
+def stepAliased (w : World) : Op → World
+  | .build trials [a] =>
+      match w.heap[a]? with
+      | some c =>
+          match c.boundary, indexOf c.var trials with
+          | .face _, some p => { heap := setPos w.heap a p, eqs := w.eqs ++ [(trials, [a])] }
+          | _, _ => step w (.build trials [a])
+      | none => w
+  | op => step w op
+
 /-! ### S-expression I/O -/
 
 def fnOfSexp : Sexp → Option Fn
@@ -441,6 +513,28 @@ def bcArgOfSexp : Sexp → Option (Except Err BcArg)
   | .list (.atom "many" :: xs) => do some ((seqExcept (← xs.mapM bcItemOfSexp)).map .many)
   | _ => none
 
+def opOfSexp : Sexp → Option Op
+  | .list [.atom "new", c] => do
+      let (l, r, b, p, ic) ← condArgsOfSexp c
+      match mkCond l r b p ic with
+      | .ok c => some (.new c)
+      | .error _ => none
+  | .list [.atom "build", .list ts, .list as] => do
+      some (.build (← ts.mapM fnOfSexp) (← as.mapM Sexp.toNat?))
+  | .list [.atom "repos", a, p] => do some (.reposition (← a.toNat?) (← p.toNat?))
+  | _ => none
+
+/-- everything observable of a world: the entries of every equation and the caller's objects -/
+def worldToSexp (w : World) : Sexp :=
+  .list [.list (.atom "eqs" :: (List.range w.eqs.length).map (fun k =>
+            match readEq w k with
+            | some cs => .list (cs.map condToSexp)
+            | none => .atom "dangling")),
+         .list (.atom "callers" :: ((List.range w.heap.length).filter (fun a => !w.owned a)).map (fun a =>
+            match w.heap[a]? with
+            | some c => condToSexp c
+            | none => .atom "dangling"))]
+
 /-- one request line → one response line -/
 def handle (args : List Sexp) : String :=
   match args with
@@ -466,6 +560,10 @@ def handle (args : List Sexp) : String :=
                     | none => .atom "None"
                     | some cs => .list (cs.map condToSexp)])
       | _, _, _, _, _ => "bad-op"
+  | .atom "history" :: ops =>
+      match ops.mapM opOfSexp with
+      | some ops => "ok " ++ toString (worldToSexp (run { heap := [], eqs := [] } ops))
+      | none => "bad-op"
   | _ => "bad-op"
 
 end BC
